@@ -248,7 +248,65 @@ fn contains(hay: &[u8], needle: &[u8]) -> bool {
   needle.len() >= 8 && hay.len() >= needle.len() && hay.windows(needle.len()).any(|w| w == needle)
 }
 
+/// thresholds around and above 2^8: the polynomial must still have exact degree t-1 (a threshold that is narrowed
+/// somewhere on the way to the dealer gives a polynomial of lower degree, at 256 a constant one)
+fn gen_c02_high(seed: u64, thorough: bool, out: &mut Out) {
+  let ts: &[u32] = if thorough { &[255, 256, 257, 258, 300, 512, 513, 1000] } else { &[256, 258] };
+  for (gi, &t) in ts.iter().enumerate() {
+    let mut r = Prng::for_case(seed, "C02h", gi as u64);
+    let m = r.bytes(12);
+    let e = r.bytes(2);
+    let g = match make_group(&mut r, m.clone(), e.clone(), t, true, vec![None; t as usize]) {
+      Some(g) => g,
+      None => continue,
+    };
+    let shares: Vec<Vec<u8>> = g.wire.iter().map(|w| split_message(w).unwrap().1).collect();
+    let r3 = derive3(&g.rnd);
+    let pts: Vec<(Fp, Fp)> = shares
+      .iter()
+      .map(|s| {
+        let f = split_share(s).unwrap();
+        (crate::g_fp::fp_of(&f.s[..24]).unwrap(), crate::g_fp::fp_of(&f.s[24..48]).unwrap())
+      })
+      .collect();
+    let distinct_x = pts.iter().map(|p| crate::g_fp::bytes_of(&p.0)).collect::<std::collections::BTreeSet<_>>().len() == pts.len();
+    if !distinct_x {
+      continue;
+    }
+    let cs: Vec<Vec<u8>> = interpolate_coeffs(&pts).iter().map(crate::g_fp::bytes_of).collect();
+    let nonconst = &cs[..cs.len() - 1];
+    let mut v = Ok(());
+    let zeros = nonconst.iter().filter(|c| c.iter().all(|&b| b == 0)).count();
+    if zeros > 0 {
+      v = Err(format!("threshold {}: {} non-constant coefficients of the sharing polynomial are zero (degree below t-1)", t, zeros));
+    }
+    let set: std::collections::BTreeSet<&Vec<u8>> = nonconst.iter().collect();
+    if v.is_ok() && set.len() != nonconst.len() {
+      v = Err(format!("threshold {}: two coefficients of the sharing polynomial coincide", t));
+    }
+    if contains(&g.wire[0], &cs[cs.len() - 1][..16]) {
+      v = Err(format!("threshold {}: the sharing key occurs in the clear in a report", t));
+    }
+    out.case(
+      format!("adss.coeffs {} {} {}", t, hex(&r3[0]), hex(&r3[1])),
+      format!("ok {}", cs.iter().map(|c| hex(c)).collect::<Vec<_>>().join(",")),
+      v,
+    );
+    // one share short of the threshold: nothing is recovered
+    let col: Vec<Vec<u8>> = shares[..t as usize - 1].to_vec();
+    let obs = match decode_all(&col) {
+      Some(d) => recover_obs(&d),
+      None => "err".into(),
+    };
+    let v = if obs == "err" { Ok(()) } else { Err(format!("threshold {}: t-1 distinct shares: recovery gave {}", t, &obs[..obs.len().min(24)])) };
+    out.case(format!("adss.recover {}", col.iter().map(|b| hex(b)).collect::<Vec<_>>().join(" ")), obs, v);
+  }
+}
+
 pub fn gen_c02(seed: u64, thorough: bool, only: Option<u64>, out: &mut Out) {
+  if only.is_none() {
+    gen_c02_high(seed, thorough, out);
+  }
   let groups: u64 = if thorough { 200 } else { 24 };
   let ts: &[u32] = if thorough { &[2, 3, 4, 5, 6, 8, 16, 40, 64] } else { &[2, 3, 4, 5, 8] };
   let mut prev_coeffs: Option<Vec<Vec<u8>>> = None;
@@ -481,9 +539,76 @@ pub fn gen_c03(seed: u64, thorough: bool, only: Option<u64>, out: &mut Out) {
         }
       }
     }
+    // nothing carried in a report opens it: the sharing key (constant term of the sharing polynomial, found here by
+    // interpolating t further shares of the same sharing) must not occur in the report - with it the wrapped key
+    // seed, hence the payload key, follows
+    {
+      let r3 = derive3(&g.rnd);
+      let c = adss::Commune::new(t, r3[0].clone(), r3[1].clone(), None);
+      let extra: Vec<Vec<u8>> = (0..t).filter_map(|_| c.clone().share().ok().map(|s| s.to_bytes())).collect();
+      let pts: Vec<(Fp, Fp)> = extra
+        .iter()
+        .filter_map(|s| split_share(s))
+        .filter_map(|f| Some((crate::g_fp::fp_of(f.s.get(..24)?)?, crate::g_fp::fp_of(f.s.get(24..48)?)?)))
+        .collect();
+      let distinct_x = pts.iter().map(|p| crate::g_fp::bytes_of(&p.0)).collect::<std::collections::BTreeSet<_>>().len() == pts.len();
+      // the same sharing as the reports' (static parts agree) - otherwise this probe says nothing
+      let same = extra.first().and_then(|s| split_share(s)).map(|f| f.j) == split_share(&split_message(&g.wire[0]).unwrap().1).map(|f| f.j);
+      if pts.len() == t as usize && distinct_x && same {
+        let cs = interpolate_coeffs(&pts);
+        let k = crate::g_fp::bytes_of(&cs[cs.len() - 1]);
+        for (i, w) in g.wire.iter().enumerate() {
+          if contains(w, &k[..16]) {
+            v = Err(format!("threshold {}: the sharing key occurs in the clear in report {} (the payload can be opened with a value the report carries)", t, i));
+          }
+        }
+      }
+    }
     let sel: Vec<usize> = (0..n).collect();
     let (obs, _, _) = server_side(&g.e, &g.wire, &sel);
     out.case(scn_case(&g, &sel), format!("wire={} {}", g.wire.iter().map(|b| hex(b)).collect::<Vec<_>>().join(","), obs), v);
+  }
+  if only.is_none() {
+    gen_c03_cross(seed, thorough, out);
+  }
+}
+
+/// A report below the threshold must not open with anything recovered for ANOTHER measurement: pairs of
+/// measurements that agree on a long prefix or differ by a trailing zero byte.
+fn gen_c03_cross(seed: u64, thorough: bool, out: &mut Out) {
+  for gi in 0..(if thorough { 60u64 } else { 9 }) {
+    let mut r = Prng::for_case(seed, "C03x", gi);
+    let base = { let l_ = 32 + 16 * r.below(3) as usize; r.bytes(l_) };
+    let short = { let l_ = 1 + r.below(6) as usize; r.bytes(l_) };
+    let (ma, mb): (Vec<u8>, Vec<u8>) = match gi % 3 {
+      0 => ([&base[..], &[1u8, 7][..]].concat(), [&base[..], &[2u8][..]].concat()),
+      1 => (short.clone(), [&short[..], &[0u8][..]].concat()),
+      _ => (base.clone(), [&base[..], &[0u8][..]].concat()),
+    };
+    let t = 2 + r.below(2) as u32;
+    let e = r.bytes(2);
+    let auxa: Vec<Option<Vec<u8>>> = (0..t).map(|_| Some(r.bytes(10))).collect();
+    let secret_aux = r.bytes(24);
+    let ga = match make_group(&mut r, ma.clone(), e.clone(), t, true, auxa) { Some(g) => g, None => continue };
+    let gb = match make_group(&mut r, mb.clone(), e.clone(), t, true, vec![Some(secret_aux.clone())]) { Some(g) => g, None => continue };
+    let sa: Vec<usize> = (0..t as usize).collect();
+    let (obs_a, _, _) = server_side(&ga.e, &ga.wire, &sa);
+    out.case(scn_case(&ga, &sa), format!("wire={} {}", ga.wire.iter().map(|b| hex(b)).collect::<Vec<_>>().join(","), obs_a), Ok(()));
+    let mut v = Ok(());
+    let (_, _, tag_a) = split_message(&ga.wire[0]).unwrap();
+    let (_, _, tag_b) = split_message(&gb.wire[0]).unwrap();
+    if tag_a == tag_b {
+      v = Err(format!("measurements {} and {} (epoch {}, threshold {}) have the same tag: a report of the second is grouped and opened with the first", hex(&ma), hex(&mb), hex(&e), t));
+    }
+    let key_a = ske_key(&derive3(&ga.rnd)[0], &e);
+    if let Some(msg_b) = Message::from_bytes(&gb.wire[0]) {
+      let p = msg_b.ciphertext.decrypt(&key_a, "star_encrypt");
+      if strict_payload(&p).map_or(false, |(mm, _)| mm == mb) {
+        v = Err(format!("a single report of measurement {} opens with the key recovered for measurement {}", hex(&mb), hex(&ma)));
+      }
+    }
+    let (obs_b, _, _) = server_side(&gb.e, &gb.wire, &[0]);
+    out.case(scn_case(&gb, &[0]), format!("wire={} {}", gb.wire.iter().map(|b| hex(b)).collect::<Vec<_>>().join(","), obs_b), v);
   }
 }
 
@@ -528,6 +653,21 @@ pub fn gen_c04(seed: u64, thorough: bool, _only: Option<u64>, out: &mut Out) {
   fam.push((vec![2, 0, 0, 0], vec![], 2));
   fam.push((vec![], vec![2, 0, 0, 0], 2));
   families.push(fam);
+  // long measurements that agree on a long prefix (32, 64, one cipher block), differ only late, or by trailing zeros
+  {
+    let long = r.bytes(400);
+    let mut fam = vec![];
+    for &k in &[16usize, 31, 32, 33, 64, 65, 128, 165, 166, 167, 200, 400] {
+      fam.push((long[..k].to_vec(), e0.clone(), 2));
+      let mut z = long[..k].to_vec();
+      z.push(0);
+      fam.push((z, e0.clone(), 2));
+      let mut d = long[..k].to_vec();
+      d[k - 1] ^= 0x80;
+      fam.push((d, e0.clone(), 2));
+    }
+    families.push(fam);
+  }
   if thorough {
     for _ in 0..40 {
       let a = { let l_ = 1 + r.below(40) as usize; r.bytes(l_) };
